@@ -70,3 +70,69 @@ pub proof fn lemma_nontrivia_step(ts: Seq<Token>, c: int)
     ensures nontrivia(ts, c + 1) == nontrivia(ts, c) + if is_trivia_k(ts[c].kind) { 0int } else { 1int },
 {
 }
+
+// ---- termination measure (C04: the parser never hangs) ----
+// at_eof: only trivia is left.  Once true it stays true; every peek then answers Eof.
+pub open spec fn at_eof(p: Parser) -> bool {
+    skip_trivia(p.input.tokens@, p.input.cursor as int) == p.input.tokens@.len()
+}
+pub open spec fn nt_left(p: Parser) -> int {
+    nontrivia(p.input.tokens@, p.input.tokens@.len() as int) - nontrivia(p.input.tokens@, p.input.cursor as int)
+}
+// mu never increases; it strictly decreases whenever a non-trivia token is consumed and whenever a look-ahead is
+// answered from the input (fuel > 0) before the end of input.  257 > the largest fuel value + 1.
+pub open spec fn mu(p: Parser) -> int {
+    if at_eof(p) { 0 } else { nt_left(p) * 257 + p.fuel as int + 1 }
+}
+// a stalled parser: look-ahead budget exhausted although input remains (every peek answers Eof)
+pub open spec fn stalled(p: Parser) -> bool { p.fuel == 0 && !at_eof(p) }
+
+pub proof fn lemma_nontrivia_suffix(ts: Seq<Token>, c: int)
+    requires 0 <= c <= ts.len(),
+    ensures
+        nontrivia(ts, c) <= nontrivia(ts, ts.len() as int),
+        skip_trivia(ts, c) < ts.len() ==> nontrivia(ts, c) < nontrivia(ts, ts.len() as int),
+        skip_trivia(ts, c) == ts.len() ==> nontrivia(ts, c) == nontrivia(ts, ts.len() as int),
+    decreases ts.len() - c,
+{
+    lemma_skip_trivia_bounds(ts, c);
+    let s = skip_trivia(ts, c);
+    lemma_nontrivia_le(ts, s, ts.len() as int);
+    if s < ts.len() {
+        lemma_nontrivia_le(ts, s + 1, ts.len() as int);
+        assert(nontrivia(ts, s + 1) == nontrivia(ts, s) + 1);
+    }
+}
+pub proof fn lemma_nontrivia_le(ts: Seq<Token>, a: int, b: int)
+    requires 0 <= a <= b <= ts.len(),
+    ensures nontrivia(ts, a) <= nontrivia(ts, b),
+    decreases b - a,
+{
+    if a < b { lemma_nontrivia_le(ts, a, b - 1); }
+}
+
+// effect of the input-level moves on mu
+pub proof fn lemma_mu_skip(p: Parser, q: Parser)
+    requires p.input.wf(), q.input.tokens == p.input.tokens,
+        q.input.cursor == skip_trivia(p.input.tokens@, p.input.cursor as int) || q.input.cursor == p.input.cursor,
+    ensures at_eof(q) == at_eof(p), nt_left(q) == nt_left(p),
+        q.fuel == p.fuel ==> mu(q) == mu(p), q.fuel < p.fuel ==> mu(q) <= mu(p), (q.fuel < p.fuel && !at_eof(p)) ==> mu(q) < mu(p),
+{
+    lemma_skip_trivia_bounds(p.input.tokens@, p.input.cursor as int);
+}
+pub proof fn lemma_mu_advance(p: Parser, q: Parser)
+    requires p.input.wf(), q.input.tokens == p.input.tokens, p.fuel <= 256, q.fuel <= 256,
+        ({ let c = skip_trivia(p.input.tokens@, p.input.cursor as int);
+           q.input.cursor == if c < p.input.tokens@.len() { c + 1 } else { c } }),
+    ensures mu(q) <= mu(p), !at_eof(p) ==> mu(q) < mu(p), at_eof(p) ==> at_eof(q),
+{
+    let ts = p.input.tokens@;
+    lemma_skip_trivia_bounds(ts, p.input.cursor as int);
+    let c = skip_trivia(ts, p.input.cursor as int);
+    lemma_nontrivia_suffix(ts, p.input.cursor as int);
+    if c < ts.len() {
+        lemma_nontrivia_suffix(ts, c + 1);
+        lemma_skip_trivia_bounds(ts, c + 1);
+        assert(nontrivia(ts, c + 1) == nontrivia(ts, c) + 1);
+    }
+}
